@@ -938,7 +938,7 @@ Proof. vm_compute. reflexivity. Qed.
 (* ------------------------------------------------------------------ *)
 (** * 10. The decoded stream and the rules validator *)
 
-From CE Require Model.Rules Proofs.RulesInvariants Proofs.RulesKeys.
+From CE Require Model.Rules Proofs.RulesInvariants Proofs.RulesKeys Proofs.RulesArrayProofs Proofs.RulesChunks.
 
 Module RulesPart.
 Import Rules RulesInvariants RulesKeys.
@@ -1199,6 +1199,316 @@ Proof.
   cbn [not_single_short] in Hs. cbn [map merge array_norm]. rewrite Hs. exact G.
 Qed.
 
+(* ---- arrays through the chunked API: the validator's run is the chunk-wise fold of RulesArrayProofs ---- *)
+
+Definition arule (sr : bool) : rule := if sr then RString else RArray.
+Definition crule (sr : bool) : rule := if sr then RStringChunk else RArrayChunk.
+Notation call5 cfg := (call_rule 5 cfg).
+
+Lemma step_chunk cfg sr c n more :
+  e_rule (cur c) = arule sr ->
+  step_ctx cfg c (EArrayChunk n more) = rule_chunk cfg (call5 cfg) sr n more c.
+Proof.
+  intro R. rewrite step_ctx_plan. cbn [ev_plan mkplan plan_step p_nno p_meth p_args].
+  unfold call_current, call_fuel. rewrite R. destruct sr; cbn [arule call_rule dispatch exec_prims exec_prim a_count a_more];
+    match goal with |- context [rule_chunk ?a ?b ?s ?x ?y ?z] => destruct (rule_chunk a b s x y z) end; reflexivity.
+Qed.
+
+Lemma step_data cfg sr c d :
+  e_rule (cur c) = crule sr ->
+  step_ctx cfg c (EArrayData d) = chunk_data (call5 cfg) sr d c.
+Proof.
+  intro R. rewrite step_ctx_plan. cbn [ev_plan mkplan plan_step p_nno p_meth p_args].
+  unfold call_current, call_fuel. rewrite R. destruct sr; cbn [crule call_rule dispatch exec_prims exec_prim array_args a_data];
+    match goal with |- context [chunk_data ?b ?s ?x ?z] => destruct (chunk_data b s x z) end; reflexivity.
+Qed.
+
+Module RA := RulesArrayProofs.
+
+(* data events that fill the chunk exactly at the last one: the run is chunk_fold *)
+Lemma steps_data cfg sr ds : forall c tl,
+  e_rule (cur c) = crule sr -> ds <> [] ->
+  RA.completes_from (chunk_expected c) (chunk_actual c) ds ->
+  steps cfg c (map EArrayData ds ++ tl) =
+  match RA.chunk_fold (call5 cfg) sr ds c with Some c' => steps cfg c' tl | None => None end.
+Proof.
+  induction ds as [|d r IH]; intros c tl R NE C; [congruence|]. clear NE.
+  cbn [map app RA.chunk_fold]. rewrite steps_cons, (step_data cfg sr c d R).
+  destruct (RA.completes_from_cons _ _ _ _ C) as [[-> _] | [NE [L C']]].
+  - cbn [map app RA.chunk_fold]. destruct (chunk_data (call5 cfg) sr d c); reflexivity.
+  - rewrite RA.chunk_data_factor.
+    destruct (RA.adata_step sr d (RA.adata_of c)) as [a1|] eqn:S; [|reflexivity].
+    destruct (RA.adata_step_acct _ _ _ _ S) as [A1 [A2 _]]. cbn in A1, A2.
+    assert (Q : RA.adata_complete a1 = false).
+    { unfold RA.adata_complete. apply N.eqb_neq. rewrite A1, A2. lia. }
+    rewrite Q. apply IH; [exact R | exact NE|].
+    change (chunk_expected (RA.adata_put c a1)) with (RA.ad_expected a1).
+    change (chunk_actual (RA.adata_put c a1)) with (RA.ad_actual a1).
+    rewrite A1, A2. exact C'.
+Qed.
+
+(* one chunk: its chunk event and its data events *)
+Lemma steps_chunk cfg sr c n more ds tl :
+  e_rule (cur c) = arule sr ->
+  RA.chunk_shape sr (arr_type c) (n, more, ds) ->
+  steps cfg c (EArrayChunk n more :: map EArrayData ds ++ tl) =
+  match RA.chunk_whole cfg (call5 cfg) sr (n, more, ds) c with Some c' => steps cfg c' tl | None => None end.
+Proof.
+  intros R Sh. rewrite steps_cons, (step_chunk cfg sr c n more R).
+  unfold RA.chunk_whole, RA.ch_len, RA.ch_more, RA.ch_ds. cbn [fst snd].
+  unfold RA.chunk_shape, RA.ch_len, RA.ch_ds in Sh. cbn [fst snd] in Sh.
+  destruct (N.eqb_spec n 0) as [E|E].
+  - subst ds. cbn [map app RA.chunk_fold]. destruct (rule_chunk cfg (call5 cfg) sr n more c); reflexivity.
+  - destruct Sh as (ex & Hb & Hex & C).
+    destruct (rule_chunk cfg (call5 cfg) sr n more c) as [c1|] eqn:RC; [|reflexivity].
+    unfold rule_chunk in RC. replace (n =? 0) with false in RC by (symmetry; apply N.eqb_neq; exact E).
+    assert (Hb' : (if sr then Some n
+                   else match array_bits (arr_type c) with
+                        | Some bits => Some (elem_byte_count bits n) | None => None end) = Some ex) by exact Hb.
+    rewrite Hb' in RC. cbv zeta in RC.
+    destruct ((max_array_size_bytes cfg <? (arr_total c + ex) mod two64) && (0 <? max_array_size_bytes cfg)); [discriminate|].
+    injection RC as <-.
+    apply steps_data.
+    + destruct sr; reflexivity.
+    + apply (RA.completes_from_nonempty ex 0); assumption.
+    + exact C.
+Qed.
+
+Definition arr_inv (sr : bool) (t : N) (c : rctx) : Prop :=
+  e_rule (cur c) = arule sr /\ arr_type c = t /\ (sr = true -> utf8_rem c = [] /\ arr_validator c = VUtf8).
+
+Lemma raw_chunk_events_cons n more ds (r : list rchunk) :
+  raw_chunk_events ((n, more, ds) :: r) = EArrayChunk n more :: map EArrayData ds ++ raw_chunk_events r.
+Proof. reflexivity. Qed.
+
+(* two deliveries of the same chunks (same counts and flags, the same bytes cut differently into data
+   events) drive the validator through the same contexts *)
+Lemma chunks_sim cfg sr t cs1 cs2 :
+  Forall2 RA.chunk_equiv cs1 cs2 ->
+  Forall (RA.chunk_shape sr t) cs1 -> Forall (RA.chunk_shape sr t) cs2 ->
+  RA.more_flags_ok cs1 = true ->
+  forall c tl, arr_inv sr t c -> arr_total c + RA.total_bytes sr t cs1 < two64 ->
+  steps cfg c (raw_chunk_events cs1 ++ tl) = steps cfg c (raw_chunk_events cs2 ++ tl).
+Proof.
+  induction 1 as [|[[n1 m1] ds1] [[n2 m2] ds2] r1 r2 (E1 & E2 & E3) F IH]; intros S1 S2 Fl c tl Inv Tot; [reflexivity|].
+  unfold RA.ch_len, RA.ch_more, RA.ch_ds in E1, E2, E3. cbn [fst snd] in E1, E2, E3. subst n2 m2.
+  inversion S1 as [|? ? Sh1 S1']; subst. inversion S2 as [|? ? Sh2 S2']; subst.
+  destruct Inv as (R & At & Hs). rewrite <- At in Sh1, Sh2.
+  rewrite !raw_chunk_events_cons. cbn [app]. rewrite <- !app_assoc.
+  rewrite (steps_chunk cfg sr c n1 m1 ds1 _ R Sh1), (steps_chunk cfg sr c n1 m1 ds2 _ R Sh2).
+  cbn [RA.total_bytes] in Tot. unfold RA.ch_bytes, RA.ch_len in Tot. cbn [fst] in Tot.
+  destruct (N.eqb_spec n1 0) as [Z|Z].
+  - (* empty chunk: no data events on either side *)
+    unfold RA.chunk_shape, RA.ch_len, RA.ch_ds in Sh1, Sh2. cbn [fst snd] in Sh1, Sh2.
+    replace (n1 =? 0) with true in Sh1, Sh2 by (symmetry; apply N.eqb_eq; exact Z). subst ds1 ds2.
+    destruct m1.
+    + (* more chunks follow: the context is unchanged *)
+      assert (W : RA.chunk_whole cfg (call5 cfg) sr (n1, true, []) c = Some c).
+      { unfold RA.chunk_whole, RA.ch_len, RA.ch_more, RA.ch_ds. cbn [fst snd]. unfold rule_chunk, try_end_array.
+        replace (n1 =? 0) with true by (symmetry; apply N.eqb_eq; exact Z). reflexivity. }
+      rewrite W. cbn [RA.more_flags_ok] in Fl. destruct r1 as [|x r1']; [discriminate|]. cbn [andb] in Fl.
+      replace (n1 =? 0) with true in Tot by (symmetry; apply N.eqb_eq; exact Z).
+      apply IH; [exact S1' | exact S2' | exact Fl | split; [exact R | split; [exact At | exact Hs]] | lia].
+    + cbn [RA.more_flags_ok] in Fl. destruct r1 as [|x r1']; [|discriminate]. inversion F; subst. reflexivity.
+  - unfold RA.chunk_shape, RA.ch_len, RA.ch_ds in Sh1, Sh2. cbn [fst snd] in Sh1, Sh2.
+    replace (n1 =? 0) with false in Sh1, Sh2 by (symmetry; apply N.eqb_neq; exact Z).
+    destruct Sh1 as (ex & Hb & Hex & C1). destruct Sh2 as (ex2 & Hb2 & _ & C2).
+    rewrite Hb in Hb2. injection Hb2 as <-.
+    replace (n1 =? 0) with false in Tot by (symmetry; apply N.eqb_neq; exact Z).
+    rewrite <- At in Tot. rewrite Hb in Tot.
+    assert (Tex : arr_total c + ex < two64) by lia.
+    rewrite At in Tot.
+    rewrite (RA.whole_chunk cfg (call5 cfg) sr c n1 m1 ds1 ex Z Hb Hex Tex Hs C1).
+    rewrite (RA.whole_chunk cfg (call5 cfg) sr c n1 m1 ds2 ex Z Hb Hex Tex Hs C2).
+    unfold RA.data_ok. rewrite E3.
+    destruct (length_ok cfg (arr_total c + ex) && (if sr then Utf8.utf8_valid (concat ds2) else true)); [|reflexivity].
+    destruct m1.
+    + cbn [RA.more_flags_ok] in Fl. destruct r1 as [|x r1']; [discriminate|]. cbn [andb] in Fl.
+      apply IH; [exact S1' | exact S2' | exact Fl | |].
+      * unfold RA.chunk_done. split; [|split].
+        -- destruct sr; reflexivity.
+        -- cbn. exact At.
+        -- intro Sr. cbn. exact (Hs Sr).
+      * unfold RA.chunk_done. cbn. cbn [RA.total_bytes] in Tot. lia.
+    + cbn [RA.more_flags_ok] in Fl. destruct r1 as [|x r1']; [|discriminate]. inversion F; subst. reflexivity.
+Qed.
+
+(* ---- the state right after the begin event ---- *)
+
+Definition begin_post (a : args) (c' : rctx) : Prop :=
+  arr_inv (is_stringlike_validated (a_arrty a)) (a_arrty a) c' /\ arr_total c' = 0.
+
+Lemma call_rule_begin_inv cfg f r m a c c' :
+  call_rule f cfg r m a c = Some c' -> m = MArrayBegin -> begin_post a c'.
+Proof.
+  apply (call_rule_ind_gen cfg (fun _ m a _ c' => m = MArrayBegin -> begin_post a c')).
+  intros call Hcall r0 m0 a0 c0 c0' H ->.
+  pose proof RulesChunks.begin_table as T. rewrite forallb_forall in T. specialize (T r0 (all_rules_complete r0)).
+  apply orb_true_iff in T as [T|T]; [rewrite exec_prims_reject in H by exact T; discriminate|].
+  revert c0 H. induction (dispatch r0 MArrayBegin) as [|p ps IH]; intros c0 H; [discriminate T|].
+  cbn [exec_prims] in H. destruct (exec_prim cfg call r0 MArrayBegin a0 p c0) as [c1|] eqn:E; [|discriminate].
+  assert (BA : forall c2, begin_array_any (a_arrty a0) c0 = Some c2 -> begin_post a0 c2).
+  { intros c2 B. unfold begin_array_any in B. destruct (array_dtype (a_arrty a0)) as [dt|]; [|discriminate].
+    unfold begin_post, arr_inv. destruct (is_stringlike_validated (a_arrty a0)); injection B as <-;
+      (split; [split; [reflexivity | split; [reflexivity | intro S; try discriminate S; split; reflexivity]] | reflexivity]). }
+  destruct ps as [|q ps].
+  - cbn [exec_prims] in H. injection H as <-. cbn [RulesChunks.begin_cell_ok] in T.
+    destruct p; try discriminate T; cbn [exec_prim] in E.
+    { apply BA. exact E. }
+    { destruct (assert_array_type (a_arrty a0) Allow_Keyable); [|discriminate]. apply BA. exact E. }
+    { match type of T with RulesChunks.is_begin_last (PForwardCurrent ?x) = _ => destruct x; try discriminate T end. eapply Hcall; eauto. }
+    { match type of T with RulesChunks.is_begin_last (PForwardParent ?x) = _ => destruct x; try discriminate T end.
+      destruct (stack c0); [discriminate|]. eapply Hcall; eauto. }
+  - destruct p; try discriminate T. cbn [exec_prim] in E.
+    match type of E with (if ?b then _ else _) = _ => destruct b; [|discriminate] end.
+    injection E as <-. eapply IH; eauto.
+Qed.
+
+Lemma begin_step_inv cfg c e t c1 :
+  (e = EArrayBegin t \/ (exists mt, e = EMediaBegin mt /\ t = AT_Media) \/ (exists ct, e = ECustomBegin t ct)) ->
+  step_ctx cfg c e = Some c1 ->
+  arr_inv (is_stringlike_validated t) t c1 /\ arr_total c1 = 0.
+Proof.
+  intros He H. rewrite step_ctx_plan in H.
+  destruct (ev_plan cfg e) as [pl|] eqn:P; [|discriminate].
+  assert (Pm : p_meth pl = MArrayBegin /\ a_arrty (p_args pl) = t).
+  { destruct He as [->|[(mt & -> & ->)|(ct & ->)]]; cbn [ev_plan] in P;
+      repeat match type of P with (if ?b then _ else _) = Some _ => destruct b; try discriminate P end;
+      unfold mkplan in P; injection P as <-; split; reflexivity. }
+  destruct Pm as [Pm Pa]. unfold plan_step in H.
+  destruct (match p_nno pl with Some real => notify_new_object cfg real c | None => Some c end) as [c0|]; [|discriminate].
+  unfold call_current in H. apply call_rule_begin_inv in H; [|exact Pm]. unfold begin_post in H. rewrite Pa in H. exact H.
+Qed.
+
+(* ---- from the fragment's vocabulary to that of RulesArrayProofs ---- *)
+
+Lemma blen_len (b : bytes) : blen b = len b.
+Proof. reflexivity. Qed.
+
+Lemma data_ok_completesb ds : forall n a,
+  a < n -> CbeRoundtrip.data_ok (n - a) ds -> RA.completes_fromb n a ds = true.
+Proof.
+  induction ds as [|d r IH]; intros n a Ha H; cbn [CbeRoundtrip.data_ok RA.completes_fromb] in *; [lia|].
+  destruct H as (_ & Hle & Hr). rewrite blen_len.
+  destruct r as [|d' r'].
+  - cbn [CbeRoundtrip.data_ok] in Hr. apply andb_true_iff. split; [apply N.ltb_lt; exact Ha | apply N.eqb_eq; lia].
+  - assert (Hlt : a + len d < n).
+    { cbn [CbeRoundtrip.data_ok] in Hr. destruct Hr as (Hnz & _). lia. }
+    apply andb_true_iff. split; [apply N.ltb_lt; exact Hlt|].
+    apply IH; [exact Hlt|]. replace (n - (a + len d)) with (n - a - len d) by lia. exact Hr.
+Qed.
+
+Lemma data_ok_completes R ds : 0 < R -> CbeRoundtrip.data_ok R ds -> RA.completes_at_last R ds.
+Proof.
+  intros HR H. apply RA.completes_fromb_sound. apply data_ok_completesb; [exact HR|]. rewrite N.sub_0_r. exact H.
+Qed.
+
+Lemma elem_byte_count_eq w n : n * w < Uleb.two64 -> elem_byte_count w n = elem_bytes w n.
+Proof.
+  intro H. unfold elem_byte_count, elem_bytes, u64. change Rules.two64 with Uleb.two64.
+  change 7 with (N.ones 3). rewrite N.land_ones. change (2 ^ 3) with 8.
+  destruct ((w =? 1) && negb (n mod 8 =? 0)); [|reflexivity].
+  apply N.mod_small. rewrite N.mod_small by exact H. unfold Uleb.two64 in *.
+  assert (n * w / 8 <= n * w) by (apply N.div_le_upper_bound; lia). lia.
+Qed.
+
+(* an array kind: whether the string rule validates it, its type, its element width *)
+Definition rules_width (sr : bool) (t w : N) : Prop :=
+  (w = 1 \/ 8 <= w) /\ forall n, n * w < Uleb.two64 -> RA.chunk_bytes sr t n = Some (elem_bytes w n).
+
+Definition width_check (t : N) : bool :=
+  if arr_ok t then
+    if is_stringlike_validated t then element_bits t =? 8
+    else match array_bits t with Some b => b =? element_bits t | None => false end
+  else true.
+
+Lemma width_sweep : forallb width_check (nseq 0 256) = true.
+Proof. vm_compute. reflexivity. Qed.
+
+Lemma rules_width_arr t : arr_ok t = true -> rules_width (is_stringlike_validated t) t (element_bits t).
+Proof.
+  intro H. destruct (arr_ok_bits t H) as [_ Hw]. split; [exact Hw|].
+  pose proof width_sweep as S. rewrite forallb_forall in S.
+  specialize (S t ltac:(apply nseq_In; pose proof (arr_ok_lt t H); cbn; lia)). unfold width_check in S. rewrite H in S.
+  intros n Hn. unfold RA.chunk_bytes. destruct (is_stringlike_validated t).
+  - apply N.eqb_eq in S. rewrite S in *. rewrite elem_bytes_8; [reflexivity|]. unfold two61, Uleb.two64 in *. lia.
+  - destruct (array_bits t) as [b|]; [|discriminate]. apply N.eqb_eq in S. subst b. rewrite elem_byte_count_eq by exact Hn. reflexivity.
+Qed.
+
+Lemma rules_width_media : rules_width false AT_Media 8.
+Proof.
+  split; [right; lia|]. intros n Hn. unfold RA.chunk_bytes. change (array_bits AT_Media) with (Some 8). cbv beta iota.
+  rewrite elem_byte_count_eq by exact Hn. reflexivity.
+Qed.
+
+Lemma rules_width_custom : rules_width false cbeAT_CustomBinary 8.
+Proof.
+  split; [right; lia|]. intros n Hn. unfold RA.chunk_bytes. change (array_bits cbeAT_CustomBinary) with (Some 8). cbv beta iota.
+  rewrite elem_byte_count_eq by exact Hn. reflexivity.
+Qed.
+
+Fixpoint chunks_total (w : N) (cs : list rchunk) : N :=
+  match cs with [] => 0 | (n, _, _) :: r => elem_bytes w n + chunks_total w r end.
+
+Lemma elem_bytes_0 w : elem_bytes w 0 = 0.
+Proof. unfold elem_bytes, u64. rewrite N.mul_0_l. destruct (w =? 1); reflexivity. Qed.
+
+Lemma elem_bytes_pos w n : (w = 1 \/ 8 <= w) -> n * w < Uleb.two64 -> n <> 0 -> 0 < elem_bytes w n.
+Proof.
+  intros Hw Hn Hz. rewrite <- (chunk_bytes_eq w n Hn). pose proof (chunk_bytes_nonzero w n Hw Hz). lia.
+Qed.
+
+Lemma c01_chunks_shapes sr t w cs :
+  rules_width sr t w -> c01_chunks w cs ->
+  Forall (RA.chunk_shape sr t) cs /\ RA.more_flags_ok cs = true /\ RA.total_bytes sr t cs = chunks_total w cs.
+Proof.
+  intros [Hw Hb]. 
+  assert (Sh : forall n more ds, n * w < Uleb.two64 -> CbeRoundtrip.data_ok (elem_bytes w n) ds ->
+                 RA.chunk_shape sr t (n, more, ds) /\ RA.ch_bytes sr t (n, more, ds) = elem_bytes w n).
+  { intros n more ds Hn Hd. unfold RA.chunk_shape, RA.ch_bytes, RA.ch_len, RA.ch_ds. cbn [fst snd].
+    destruct (N.eqb_spec n 0) as [Z|Z].
+    - subst n. rewrite elem_bytes_0 in *. split; [|reflexivity]. destruct ds; [reflexivity|]. cbn in Hd. destruct Hd as [C _]. contradiction.
+    - rewrite (Hb n Hn). split; [|reflexivity]. exists (elem_bytes w n).
+      pose proof (elem_bytes_pos w n Hw Hn Z) as P. split; [reflexivity|]. split; [exact P | apply data_ok_completes; assumption]. }
+  induction 1 as [n ds Hn Hnw Hd Hwf | n ds r Hn Hnw Hd Hwf Hr (I1 & I2 & I3)].
+  - destruct (Sh n false ds Hnw Hd) as [S1 S2]. split; [repeat constructor; exact S1|]. split; [reflexivity|].
+    cbn [RA.total_bytes chunks_total]. rewrite S2. reflexivity.
+  - destruct (Sh n true ds Hnw Hd) as [S1 S2]. split; [constructor; assumption|]. split.
+    + cbn [RA.more_flags_ok]. destruct r; [inversion Hr|]. exact I2.
+    + cbn [RA.total_bytes chunks_total]. rewrite S2, I3. reflexivity.
+Qed.
+
+Lemma equiv_unmerge cs : Forall2 RA.chunk_equiv cs (map unmerge (map merge cs)).
+Proof.
+  induction cs as [|[[n more] ds] r IH]; [constructor|]. cbn [map merge unmerge]. constructor; [|exact IH].
+  unfold RA.chunk_equiv, RA.ch_len, RA.ch_more, RA.ch_ds. cbn [fst snd]. split; [reflexivity|]. split; [reflexivity|].
+  destruct (N.eqb_spec (len (concat ds)) 0) as [E|E]; cbn [concat].
+  - apply len_zero in E. exact E.
+  - rewrite app_nil_r. reflexivity.
+Qed.
+
+(* a chunked array however its data is cut, and the same array with one data event per chunk *)
+Lemma split_sim cfg e t w cs :
+  (e = EArrayBegin t \/ (exists mt, e = EMediaBegin mt /\ t = AT_Media) \/ (exists ct, e = ECustomBegin t ct)) ->
+  rules_width (is_stringlike_validated t) t w -> c01_chunks w cs -> chunks_total w cs < Uleb.two64 ->
+  rules_sim cfg (e :: raw_chunk_events cs) (e :: raw_chunk_events (map unmerge (map merge cs))).
+Proof.
+  intros He Hw Hcs Htot c c'. rewrite !steps_cons.
+  destruct (step_ctx cfg c e) as [c1|] eqn:B; [|discriminate].
+  destruct (begin_step_inv cfg c e t c1 He B) as [Inv T0].
+  destruct (c01_chunks_shapes _ t w cs Hw Hcs) as (S1 & F1 & Tb).
+  destruct (c01_chunks_shapes _ t w _ Hw (c01_chunks_unmerge w cs Hcs)) as (S2 & _ & _).
+  pose proof (chunks_sim cfg _ t cs _ (equiv_unmerge cs) S1 S2 F1 c1 [] Inv) as E.
+  rewrite !app_nil_r in E. rewrite <- E; [trivial|]. rewrite T0, Tb. exact Htot.
+Qed.
+
+Lemma array_norm_long t cs :
+  not_single_short t cs -> array_norm t (map merge cs) = EArrayBegin t :: chunk_events (map merge cs).
+Proof.
+  intro Hs. destruct cs as [|[[n more] ds] r]; [reflexivity|]. destruct more; [reflexivity|]. destruct r; [|reflexivity].
+  cbn [not_single_short] in Hs. cbn [map merge array_norm]. rewrite Hs. reflexivity.
+Qed.
+
 (* the sub-fragment on which the validator provably treats the decoded stream like the original *)
 Inductive c01r_unit : list event -> list event -> Prop :=
 | ru_simple e : c01_simple e -> rules_stable e -> c01r_unit [e] (norm_event e)
@@ -1211,7 +1521,21 @@ Inductive c01r_unit : list event -> list event -> Prop :=
 | ru_custom ct cs :
     ct <= custom_type_max -> c01_chunks 8 cs -> Forall chunk_normal cs ->
     c01r_unit (ECustomBegin cbeAT_CustomBinary ct :: raw_chunk_events cs)
-              (ECustomBegin cbeAT_CustomBinary ct :: raw_chunk_events cs).
+              (ECustomBegin cbeAT_CustomBinary ct :: raw_chunk_events cs)
+(* chunked arrays whose data comes in any number of data events per chunk: the decoder reports one
+   data event per non-empty chunk (RulesArrayProofs: the validator's verdict and context do not depend
+   on how a chunk's bytes are cut) *)
+| ru_array_split t cs :
+    arr_ok t = true -> c01_chunks (element_bits t) cs -> chunks_total (element_bits t) cs < Uleb.two64 ->
+    not_single_short t cs ->
+    c01r_unit (EArrayBegin t :: raw_chunk_events cs) (EArrayBegin t :: chunk_events (map merge cs))
+| ru_media_split mt cs :
+    bytes_wf mt -> len mt <= media_type_max_length -> c01_chunks 8 cs -> chunks_total 8 cs < Uleb.two64 ->
+    c01r_unit (EMediaBegin mt :: raw_chunk_events cs) (EMediaBegin mt :: chunk_events (map merge cs))
+| ru_custom_split ct cs :
+    ct <= custom_type_max -> c01_chunks 8 cs -> chunks_total 8 cs < Uleb.two64 ->
+    c01r_unit (ECustomBegin cbeAT_CustomBinary ct :: raw_chunk_events cs)
+              (ECustomBegin cbeAT_CustomBinary ct :: chunk_events (map merge cs)).
 
 Inductive c01r_body : list event -> list event -> Prop :=
 | rb_nil : c01r_body [] []
@@ -1219,7 +1543,14 @@ Inductive c01r_body : list event -> list event -> Prop :=
 
 Lemma c01r_unit_spec cfg u n : c01r_unit u n -> c01_unit u n /\ rules_sim cfg u n.
 Proof.
-  intro H. destruct H as [e He Hst | t cs Ht Hcs Hn Hs | mt cs Hm Hl Hcs Hn | ct cs Hc Hcs Hn].
+  intro H. destruct H as [e He Hst | t cs Ht Hcs Hn Hs | mt cs Hm Hl Hcs Hn | ct cs Hc Hcs Hn
+                          | t cs Ht Hcs Htot Hs | mt cs Hm Hl Hcs Htot | ct cs Hc Hcs Htot].
+  7:{ split; [apply cu_custom; assumption|]. rewrite chunk_events_raw.
+      apply (split_sim cfg _ cbeAT_CustomBinary 8 cs); [right; right; eexists; reflexivity | exact rules_width_custom | exact Hcs | exact Htot]. }
+  6:{ split; [apply cu_media; assumption|]. rewrite chunk_events_raw.
+      apply (split_sim cfg _ AT_Media 8 cs); [right; left; eexists; split; reflexivity | exact rules_width_media | exact Hcs | exact Htot]. }
+  5:{ split; [rewrite <- (array_norm_long t cs Hs); apply cu_array; assumption|]. rewrite chunk_events_raw.
+      apply (split_sim cfg _ t (element_bits t) cs); [left; reflexivity | apply rules_width_arr; exact Ht | exact Hcs | exact Htot]. }
   - split; [apply cu_simple; exact He | apply simple_rules_sim; assumption].
   - split; [|apply rules_sim_refl]. rewrite <- (array_norm_normal t cs Hn Hs) at 2. apply cu_array; assumption.
   - split; [|apply rules_sim_refl].
@@ -1308,22 +1639,25 @@ Fixpoint c01r_norm (fuel : nat) (es : list event) : option (list event) :=
       | EArrayBegin t :: r =>
           match take_chunks (S (length r)) r with
           | Some (cs, r') =>
-              if arr_ok t && c01_chunksb (element_bits t) cs && forallb chunk_normalb cs && not_single_shortb t cs
-              then opt_map (app (EArrayBegin t :: raw_chunk_events cs)) (c01r_norm f r') else None
+              if arr_ok t && c01_chunksb (element_bits t) cs && not_single_shortb t cs &&
+                 (forallb chunk_normalb cs || (chunks_total (element_bits t) cs <? Uleb.two64))
+              then opt_map (app (EArrayBegin t :: chunk_events (map merge cs))) (c01r_norm f r') else None
           | None => None
           end
       | EMediaBegin mt :: r =>
           match take_chunks (S (length r)) r with
           | Some (cs, r') =>
-              if bytes_wfb mt && (len mt <=? media_type_max_length) && c01_chunksb 8 cs && forallb chunk_normalb cs
-              then opt_map (app (EMediaBegin mt :: raw_chunk_events cs)) (c01r_norm f r') else None
+              if bytes_wfb mt && (len mt <=? media_type_max_length) && c01_chunksb 8 cs &&
+                 (forallb chunk_normalb cs || (chunks_total 8 cs <? Uleb.two64))
+              then opt_map (app (EMediaBegin mt :: chunk_events (map merge cs))) (c01r_norm f r') else None
           | None => None
           end
       | ECustomBegin t ct :: r =>
           match take_chunks (S (length r)) r with
           | Some (cs, r') =>
-              if (t =? cbeAT_CustomBinary) && (ct <=? custom_type_max) && c01_chunksb 8 cs && forallb chunk_normalb cs
-              then opt_map (app (ECustomBegin cbeAT_CustomBinary ct :: raw_chunk_events cs)) (c01r_norm f r')
+              if (t =? cbeAT_CustomBinary) && (ct <=? custom_type_max) && c01_chunksb 8 cs &&
+                 (forallb chunk_normalb cs || (chunks_total 8 cs <? Uleb.two64))
+              then opt_map (app (ECustomBegin cbeAT_CustomBinary ct :: chunk_events (map merge cs))) (c01r_norm f r')
               else None
           | None => None
           end
@@ -1344,30 +1678,44 @@ Proof.
   destruct e; try (apply Simple; exact H); cbn [c01r_norm] in H.
   - destruct (take_chunks (S (length r)) r) as [[cs r']|] eqn:E; [|discriminate].
     destruct (take_chunks_spec _ _ _ _ E) as [E1 _].
-    destruct (arr_ok t && c01_chunksb (element_bits t) cs && forallb chunk_normalb cs && not_single_shortb t cs) eqn:C; [|discriminate].
+    destruct (arr_ok t && c01_chunksb (element_bits t) cs && not_single_shortb t cs &&
+              (forallb chunk_normalb cs || (chunks_total (element_bits t) cs <? Uleb.two64))) eqn:C; [|discriminate].
     apply andb_true_iff in C as [C C4]. apply andb_true_iff in C as [C C3]. apply andb_true_iff in C as [C1 C2].
     destruct (c01r_norm f r') as [rn|] eqn:Er; [|discriminate]. injection H as <-. rewrite E1.
-    apply (rb_app (EArrayBegin t :: raw_chunk_events cs) (EArrayBegin t :: raw_chunk_events cs) r' rn); [|apply IH; exact Er].
-    apply ru_array; [exact C1 | apply c01_chunksb_sound; exact C2 | apply chunk_normalb_sound; exact C3 |
-                     apply not_single_shortb_sound; exact C4].
+    apply (rb_app (EArrayBegin t :: raw_chunk_events cs) (EArrayBegin t :: chunk_events (map merge cs)) r' rn); [|apply IH; exact Er].
+    destruct (forallb chunk_normalb cs) eqn:Cn; cbn [orb] in C4.
+    + rewrite chunk_events_raw, (unmerge_merge_normal cs (chunk_normalb_sound cs Cn)).
+      apply ru_array; [exact C1 | apply c01_chunksb_sound; exact C2 | apply chunk_normalb_sound; exact Cn |
+                       apply not_single_shortb_sound; exact C3].
+    + apply ru_array_split; [exact C1 | apply c01_chunksb_sound; exact C2 | apply N.ltb_lt; exact C4 |
+                             apply not_single_shortb_sound; exact C3].
   - destruct (take_chunks (S (length r)) r) as [[cs r']|] eqn:E; [|discriminate].
     destruct (take_chunks_spec _ _ _ _ E) as [E1 _].
-    destruct (bytes_wfb mediatype && (len mediatype <=? media_type_max_length) && c01_chunksb 8 cs && forallb chunk_normalb cs) eqn:C; [|discriminate].
+    destruct (bytes_wfb mediatype && (len mediatype <=? media_type_max_length) && c01_chunksb 8 cs &&
+              (forallb chunk_normalb cs || (chunks_total 8 cs <? Uleb.two64))) eqn:C; [|discriminate].
     apply andb_true_iff in C as [C C4]. apply andb_true_iff in C as [C C3]. apply andb_true_iff in C as [C1 C2].
     destruct (c01r_norm f r') as [rn|] eqn:Er; [|discriminate]. injection H as <-. rewrite E1.
-    apply (rb_app (EMediaBegin mediatype :: raw_chunk_events cs) (EMediaBegin mediatype :: raw_chunk_events cs) r' rn);
+    apply (rb_app (EMediaBegin mediatype :: raw_chunk_events cs) (EMediaBegin mediatype :: chunk_events (map merge cs)) r' rn);
       [|apply IH; exact Er].
-    apply ru_media; [apply bytes_wfb_wf; exact C1 | apply N.leb_le; exact C2 | apply c01_chunksb_sound; exact C3 |
-                     apply chunk_normalb_sound; exact C4].
+    destruct (forallb chunk_normalb cs) eqn:Cn; cbn [orb] in C4.
+    + rewrite chunk_events_raw, (unmerge_merge_normal cs (chunk_normalb_sound cs Cn)).
+      apply ru_media; [apply bytes_wfb_wf; exact C1 | apply N.leb_le; exact C2 | apply c01_chunksb_sound; exact C3 |
+                       apply chunk_normalb_sound; exact Cn].
+    + apply ru_media_split; [apply bytes_wfb_wf; exact C1 | apply N.leb_le; exact C2 | apply c01_chunksb_sound; exact C3 |
+                             apply N.ltb_lt; exact C4].
   - destruct (take_chunks (S (length r)) r) as [[cs r']|] eqn:E; [|discriminate].
     destruct (take_chunks_spec _ _ _ _ E) as [E1 _].
-    destruct ((t =? cbeAT_CustomBinary) && (ct <=? custom_type_max) && c01_chunksb 8 cs && forallb chunk_normalb cs) eqn:C; [|discriminate].
+    destruct ((t =? cbeAT_CustomBinary) && (ct <=? custom_type_max) && c01_chunksb 8 cs &&
+              (forallb chunk_normalb cs || (chunks_total 8 cs <? Uleb.two64))) eqn:C; [|discriminate].
     apply andb_true_iff in C as [C C4]. apply andb_true_iff in C as [C C3]. apply andb_true_iff in C as [C1 C2].
     apply N.eqb_eq in C1. subst t.
     destruct (c01r_norm f r') as [rn|] eqn:Er; [|discriminate]. injection H as <-. rewrite E1.
     apply (rb_app (ECustomBegin cbeAT_CustomBinary ct :: raw_chunk_events cs)
-                  (ECustomBegin cbeAT_CustomBinary ct :: raw_chunk_events cs) r' rn); [|apply IH; exact Er].
-    apply ru_custom; [apply N.leb_le; exact C2 | apply c01_chunksb_sound; exact C3 | apply chunk_normalb_sound; exact C4].
+                  (ECustomBegin cbeAT_CustomBinary ct :: chunk_events (map merge cs)) r' rn); [|apply IH; exact Er].
+    destruct (forallb chunk_normalb cs) eqn:Cn; cbn [orb] in C4.
+    + rewrite chunk_events_raw, (unmerge_merge_normal cs (chunk_normalb_sound cs Cn)).
+      apply ru_custom; [apply N.leb_le; exact C2 | apply c01_chunksb_sound; exact C3 | apply chunk_normalb_sound; exact Cn].
+    + apply ru_custom_split; [apply N.leb_le; exact C2 | apply c01_chunksb_sound; exact C3 | apply N.ltb_lt; exact C4].
 Qed.
 
 Definition c01r_doc_norm (es : list event) : option (list event) :=
@@ -1433,7 +1781,9 @@ Definition c01r_example : list event :=
      ENan true; EDecimal (DFin true 15 (-1)); EBigDecimal (Some (DFin false 7 7)); EBigFloat (Some (BInf true)); EBigFloat (Some (BFin false 5 (-1074) 64));
      EComment true [99]; EBigInt None; EBool true;
      EArrayBegin cbeAT_String; EArrayChunk 2 true; EArrayData [195; 169]; EArrayChunk 1 false; EArrayData [97];
-     EArrayBegin cbeAT_Uint8; EArrayChunk 20 false; EArrayData [1;2;3;4;5;6;7;8;9;10;11;12;13;14;15;16;17;18;19;20];
+     EArrayBegin cbeAT_Uint8; EArrayChunk 20 false; EArrayData [1;2;3;4;5;6;7;8;9;10]; EArrayData []; EArrayData [11;12;13;14;15;16;17;18;19;20];
+     EArrayBegin cbeAT_String; EArrayChunk 20 true; EArrayData [226]; EArrayData [130; 172; 49; 50; 51; 52; 53; 54; 55; 56; 57; 48; 49; 50; 51; 52; 53]; EArrayData [54; 55];
+       EArrayChunk 0 false;
      EArray cbeAT_Uint16 2 [1; 0; 2; 0];
      EUid [1;2;3;4;5;6;7;8;9;10;11;12;13;14;15;16];
      EMarker [109]; EList; EEnd; ERefLocal [109]; ENull; EPadding;
